@@ -92,7 +92,7 @@ class SelectorInit(Task):
             ctx.oblige("post.farg-is-the-requested-selection", isinstance(farg, SSlice) and veq(ctx, farg, exp), "P")
         elif isinstance(exp, list):
             ctx.oblige("post.farg-is-the-requested-selection", isinstance(farg, list) and veq(ctx, farg, exp), "P")
-            ctx.oblige("post.farg-is-a-python-list-of-ints", isinstance(farg, list), "P")
+            ctx.structure("post.farg-is-a-python-list-of-ints", isinstance(farg, list))
         else:
             ctx.oblige("post.farg-is-the-requested-selection", veq(ctx, farg, exp), "P")
             ctx.oblige("post.farg-is-a-python-int", is_intlike(farg), "P")
@@ -328,7 +328,7 @@ class CookerGetitem(Task):
             return
         c = inp["calls"]
         ok = len(c) == 1 and len(c[0][0]) + len(c[0][1]) == 7
-        ctx.oblige("post.one-selector-built-with-seven-arguments", ok, "P")
+        ctx.structure("post.one-selector-built-with-seven-arguments", ok)
         if not ok:
             return
         a = c[0][0]
